@@ -1,5 +1,6 @@
 """C02 - parse() inverts every supported unambiguous date/time rendering."""
 import ast
+import re
 import calendar
 
 from ..model import src, walk_local, AnalysisError
@@ -152,7 +153,16 @@ def run(ctx):
             if isinstance(x, ast.Call) and src(x.func) == "ymd.append" and len(x.args) == 2 and src(x.args[1]) == "'Y'":
                 n_y += 1
                 a = x.args[0]
-                textual = isinstance(a, ast.Subscript) or (isinstance(a, ast.Name) and a.id in ("year", "value_repr"))
+                textual = isinstance(a, ast.Subscript)
+                if isinstance(a, ast.Name):
+                    # a name is text when everything it can stand for is a token (or a slice of one), never a converted number
+                    from ..rules_common import value_set
+                    fcfg = ctx.cfg(f)
+                    vals = set()
+                    for n_ in fcfg.live_nodes():
+                        if n_.kind == "stmt" and n_.ast is not None and any(y is x for y in ast.walk(n_.ast)):
+                            vals |= value_set(ctx, f, n_, a)
+                    textual = bool(vals) and all(re.match(r"^(\w+)\[[^\]]*\](\[[^\]]*\])?$", v) or v.startswith("str(") or v in ("value_repr", "year") for v in vals)
                 ctx.ob("C02.CENTURY", f, "a year field labelled 'Y' reaches _ymd.append as text, so its width (not its value) decides whether the century was specified",
                        textual and not (isinstance(a, ast.Call) and src(a.func) == "int"), construct="%s: %s" % (f.name, src(x)),
                        detail="" if textual else "numeric argument: a year below 100 written with four digits would be re-centred", analysis="FIELD type/width bookkeeping")
@@ -165,7 +175,8 @@ def run(ctx):
     ctx.ob("C02.CENTURY", ap, "the century flag is set for digit text longer than 2 characters or numbers above 100", len(cs) == 2 and
            any("len(val) > 2" in " ".join(c) for c in conds) and any("val > 100" in " ".join(c) for c in conds), construct="century_specified conditions", detail=str(conds))
     yslice = [x for x in walk_local(pnt.node) if isinstance(x, ast.Call) and src(x.func) == "ymd.append" and x.args and isinstance(x.args[0], ast.Subscript)
-              and src(x.args[0]) in ("s[:4]", "s[0:4]")]
+              and isinstance(x.args[0].slice, ast.Slice) and (x.args[0].slice.lower is None or src(x.args[0].slice.lower) == "0")
+              and src(x.args[0].slice.upper) == "4" and x.args[0].slice.step is None]
     ctx.ob("C02.CENTURY", pnt, "YYYYMMDD[...] tokens hand the first four characters over as the year", len(yslice) == 1 and len(yslice[0].args) == 2, construct="ymd.append(s[:4], 'Y')")
 
     # ---------------------------------------------------------------- C02.FRAC
